@@ -6,8 +6,8 @@ import ZChain.Model.StakePool
 
 Transcribed Go code (module `0chain.net/smartcontract`):
 * `provider/kill.go: Kill`, `provider/shutdown.go: ShutDown` — generic over the provider kind; **the key under
-  which the stake pool is saved is an explicit parameter** (`SaveKey`): the code passes `req.ID` in `Kill` and the
-  caller's `clientId` in `ShutDown`, while the pool was loaded under `p.Id()`;
+  which the stake pool is saved is an explicit parameter** (`SaveKey`): the code passes `req.ID` in `Kill` and `p.Id()`
+  in `ShutDown` (the caller's `clientId` before repo commit d221d33), the pool being loaded under `p.Id()`;
 * `storagesc/kill.go: killBlobber, killValidator`, `storagesc/shutdown.go: shutdownBlobber, shutdownValidator`
   (provider lookup, validators-partition removal, the `refreshProvider` closures, swallowing of the
   already-killed error by the blobber wrappers only, deletion of an empty provider);
@@ -25,8 +25,8 @@ State layout = the MPT leaves the mechanism touches: accounts, `provider:<id>` n
 (a miner's / sharder's pool is part of its provider node: `leafOf`), the validators partition.
 
 Code quirks that are modelled because they are what the code does:
-* `ShutDown` saves under the caller id and authorises **after** mutating; the already-shut-down branch (with its
-  refresh) runs **before** any authorisation;
+* `ShutDown` authorises **after** mutating and saving; the already-shut-down branch (with its refresh) runs **before**
+  any authorisation;
 * `shutdownValidator`'s refresh closure reads the **blobber** stake pool of the same id;
 * `storagesc` loads the provider node with a non-cacheable type: when the id belongs to a miner or sharder (whose
   node sits in the state cache) `StateContext.GetTrieNode` panics (`Err.panicNotCopyable`);
@@ -238,7 +238,7 @@ def SaveKey.eval (k : SaveKey) (r : Req) (provId : Id) : Id :=
 
 /-- the save keys the code uses. -/
 def killSaveKey : SaveKey := .reqId        -- provider/kill.go:70  `sp.Save(p.Type(), req.ID, balances)`
-def shutDownSaveKey : SaveKey := .caller   -- provider/shutdown.go:51 `sp.Save(p.Type(), clientId, balances)`
+def shutDownSaveKey : SaveKey := .provId   -- provider/shutdown.go:52 `sp.Save(p.Type(), p.Id(), balances)` (since d221d33; before: `clientId` = `.caller`)
 
 /-- result of a wrapper's `providerSpecific` closure: provider id (`p.Id()`), its record, the stake pool loaded under
 `(p.Type(), p.Id())`, and the state after the closure's own writes (partition removal). -/
